@@ -222,6 +222,70 @@ macro_rules! c16_validate {
         }
     };
 }
+macro_rules! c16_verifier {
+    ($name:ident, $mode:expr, $klen:expr) => {
+        #[kani::proof]
+        #[kani::unwind(82)]
+        #[kani::stub(pbkdf2::pbkdf2, stub_pbkdf2)]
+        #[kani::stub(core::arch::x86_64::__cpuid, crate::verif_kit::stub_cpuid)]
+        #[kani::stub(core::arch::x86_64::__cpuid_count, crate::verif_kit::stub_cpuid_count)]
+        fn $name() {
+            const K: usize = $klen;
+            const S: usize = K / 2;
+            // derived key: concrete, pairwise distinct key material (so a wrong slice is visible),
+            // symbolic 2-byte verifier
+            let v: [u8; 2] = kani::any();
+            unsafe {
+                let mut i = 0;
+                while i < 2 * K {
+                    DERIVED[i] = (i as u8).wrapping_mul(7).wrapping_add(3);
+                    i += 1;
+                }
+                DERIVED[2 * K] = v[0];
+                DERIVED[2 * K + 1] = v[1];
+            }
+            let file: [u8; 20] = kani::any(); // salt | verifier | ...
+            let csize: u64 = kani::any();
+            kani::assume(csize >= (S + 12) as u64);
+            let src = EnvReader::<20> { data: file, total: 20, pos: 0, env: Env::quiet() };
+            let pw: [u8; 1] = kani::any();
+            let r = AesReader::new(src, $mode, csize).validate(&pw);
+            let matches = file[S] == v[0] && file[S + 1] == v[1];
+            match r {
+                Ok(Some(valid)) => {
+                    assert!(matches, "wrong password verifier accepted");
+                    unsafe {
+                        assert_eq!(PBKDF2_SALT_LEN, S);
+                        assert_eq!(PBKDF2_ROUNDS, 1000);
+                        assert_eq!(PBKDF2_OUT_LEN, 2 * K + 2);
+                        assert_eq!(PBKDF2_PW0, pw[0]);
+                    }
+                    assert_eq!(valid.reader.pos, S + 2);
+                    assert_eq!(valid.data_remaining, csize - (S + 12) as u64);
+                    assert!(!valid.finalized);
+                    kani::cover!(true);
+                    core::mem::forget(valid);
+                }
+                Ok(None) => {
+                    assert!(!matches, "right password verifier rejected");
+                    kani::cover!(true);
+                }
+                Err(e) => {
+                    core::mem::forget(e);
+                    assert!(false, "validate failed on a complete header");
+                }
+            }
+        }
+    };
+}
+/// C16(b) password verifier, AES-128, key derivation as environment (PBKDF2 stubbed: called with
+/// the 8-byte salt read from the entry, 1000 rounds, 2*16+2 output bytes and the caller's
+/// password; derived key material concrete, the two verifier bytes symbolic): accepted iff BOTH
+/// stored verifier bytes equal the last two derived bytes; then exactly salt+2 bytes were
+/// consumed and the ciphertext length is compressed_size - (salt + 2 + 10) for every size.
+// @h prop=C16 tier=quick feat=aes t=600 mem=4 name=c16_verifier_aes128
+c16_verifier!(c16_verifier_aes128, AesMode::Aes128, 16);
+
 /// C16(b) AesReader::validate, AES-128, key derivation as environment (PBKDF2 stubbed: it is
 /// called with the 8-byte salt read from the entry, 1000 rounds, 2*16+2 output bytes and the
 /// caller's password): accepted iff the two stored verifier bytes equal the last two derived
